@@ -46,6 +46,9 @@ class C01(Prop):
                  'begin begin break repeat break repeat 4', '1 case 1 of 2 case 2 of 3 endof endcase endof endcase',
                  '1 0 do 7 loop 8', ': f begin 1 break repeat ; f f', ': f local x x 1 + local x x ; 5 f',
                  ': g local a local b a b + local a a b ; 1 2 g', ': h local x 3 0 do x I + local x loop x ; 10 h',
+                 # bounds that `do` refuses: both operands are consumed, nothing else is touched
+                 '11 22 7 "x" do I loop', '11 22 "x" 7 do I loop', '"x" do I loop', ': f do I loop ; "s" f', '1 2 3 nil nil do loop', '9 7 0.5 do I loop',
+                 '9 0.5 7 do I loop', '5 true 0 do I loop 6', '4 4 [ 1 ] 0 do loop',
                  # a redefined global: words compiled before keep the old variable
                  '1 var x : getx x ; 2 var x getx x', '0 var n : bump n 1 + ! n ; 10 var n 3 0 do bump loop n', '1 var v 2 var v v 3 ! v v',
                  '5 var a : sa ! a ; 6 var a 7 sa a', ': k 1 ; 2 var k k', '1 var w : w 9 ; w']
